@@ -11,8 +11,121 @@ import (
 
 const hour = uint64(3600 * 1000000000)
 
+// caFamily is a deterministic family for FirewallCA.match: every combination of 2 or 3 rules of the kinds
+// {ca_sha, ca_name, CA-less} (with repetition) in one (direction, protocol, port) bucket x which of them match on
+// their remaining selector x a peer issued by that CA, by another CA in the pool, or by an unknown CA.
+func caFamily(emit func(string, ...any)) int {
+	kinds := []string{"sha", "name", "none"}
+	var combos [][]string
+	for i := range kinds {
+		for j := i; j < len(kinds); j++ {
+			combos = append(combos, []string{kinds[i], kinds[j]})
+			for k := j; k < len(kinds); k++ {
+				combos = append(combos, []string{kinds[i], kinds[j], kinds[k]})
+			}
+		}
+	}
+	ops := 0
+	for ci, combo := range combos {
+		for mask := 0; mask < 1<<len(combo); mask++ {
+			emit("reset 0 %d %d %d 0 me 0a000001/8 - - ca1", 1000*hour, 1000*hour, 1000*hour)
+			emit("ca ca1 caA")
+			emit("ca ca2 caB")
+			emit("peer pa h1 0a000002/8 - g1 ca1")
+			emit("peer pb h1 0a000003/8 - g1 ca2")
+			emit("peer pc h1 0a000004/8 - g1 ca9")
+			dir := "in"
+			if (ci+mask)%3 == 0 {
+				dir = "out"
+			}
+			for i, kind := range combo {
+				group := "gx" // a group nobody has: the rule does not match on its remaining selector
+				if mask&(1<<i) != 0 {
+					group = "g1"
+				}
+				caName, caSha := "-", "-"
+				switch kind {
+				case "sha":
+					caSha = "ca1"
+				case "name":
+					caName = "caA"
+				}
+				emit("rule %s 6 80 80 %s - - any %s %s", dir, group, caName, caSha)
+			}
+			for i, peer := range []string{"pa", "pb", "pc"} {
+				verb := "match"
+				if (ci+mask+i)%4 == 0 {
+					verb = "drop"
+				}
+				if dir == "in" {
+					emit("%s %s in 0a000001 0a00000%d 80 4000 6 0", verb, peer, i+2)
+				} else {
+					emit("%s %s out 0a000001 0a00000%d 4000 80 6 0", verb, peer, i+2)
+				}
+				ops++
+			}
+		}
+	}
+	return ops
+}
+
+// addrFamily is a deterministic family for the address checks: peers whose certified prefixes are supernets /
+// subnets of this node's network or only overlap it, with the address inside or outside it, alone or after an
+// in-network address; allow-everything rules; every certified address as remote address in both directions.
+func addrFamily(emit func(string, ...any)) int {
+	type pc struct{ nets, unsafe string }
+	nodes := []struct {
+		me    string
+		local string
+		peers []pc
+		probe []string
+	}{
+		{"0a010101/24", "0a010101", []pc{
+			{"0a020005/8", "-"},                                      // supernet of the node's /24, address outside it
+			{"0a010107/8", "-"},                                      // supernet, address inside
+			{"0a010107/24,0a020005/8", "-"},                          // in-network address first, then a supernet one outside
+			{"0a010107/24,ac100002/24", "-"},                         // in-network first, then a disjoint one
+			{"ac100002/24,0a010107/24", "-"},                         // the other order
+			{"0a010109/28", "-"},                                     // subnet
+			{"0a010107/24,fd000000000000000000000000000002/64", "-"}, // an address of a family the node has no network for
+			{"0a020005/8", "c0a80000/16"},                            // outside address plus an unsafe network
+			{"0a010107/24", "0a020000/16"},                           // unsafe network next to the node's network
+		}, []string{"0a020005", "0a010107", "ac100002", "0a010109", "fd000000000000000000000000000002", "c0a80105", "0a020105", "0a010163"}},
+		{"fd000000000000000000000000000001/64", "fd000000000000000000000000000001", []pc{
+			{"fd000000000000010000000000000005/48", "-"},
+			{"fd000000000000000000000000000007/64,fd000000000000010000000000000005/48", "-"},
+			{"fd000000000000000000000000000007/120", "-"},
+		}, []string{"fd000000000000010000000000000005", "fd000000000000000000000000000007"}},
+	}
+	ops := 0
+	for _, nd := range nodes {
+		emit("reset 0 %d %d %d 0 me %s - - ca1", 1000*hour, 1000*hour, 1000*hour, nd.me)
+		for i, p := range nd.peers {
+			emit("peer q%d h1 %s %s g1 ca1", i, p.nets, p.unsafe)
+		}
+		emit("rule in 0 0 0 - any - any - -")
+		emit("rule out 0 0 0 - any - any - -")
+		for i := range nd.peers {
+			for j, a := range nd.probe {
+				dir := "in"
+				if (i+j)%2 == 1 {
+					dir = "out"
+				}
+				emit("drop q%d %s %s %s 80 %d 6 0", i, dir, nd.local, a, 4000+i)
+				ops++
+			}
+		}
+	}
+	return ops
+}
+
 func gen(r *hlib.Rand, n int, tier, profile string, emit func(string, ...any)) {
 	ops := 0
+	if profile == "C17" {
+		ops += addrFamily(emit)
+	} else {
+		ops += caFamily(emit)
+	}
 	for ops < n {
 		maxRules := 8
 		if r.Chance(1, 10) {
